@@ -29,7 +29,7 @@ def main():
     base = os.path.join(HERE, "seeded")
     for name in sorted(os.listdir(base)):
         sd = os.path.join(base, name)
-        if name.startswith("refactor-") or not os.path.exists(os.path.join(sd, "patch.diff")):
+        if name.startswith("refactor") or not os.path.exists(os.path.join(sd, "patch.diff")):
             continue
         if os.path.exists(os.path.join(sd, "verif.json")) and "--all" not in sys.argv:
             continue
